@@ -367,39 +367,39 @@ func (a Arg) coq() string {
 	el := func(f func(Arg) string) string { return obs.ListOf(a.L, f) }
 	switch a.K {
 	case "s":
-		return obs.App("AS", obs.H(a.S))
+		return obs.App("AS", hx(a.S))
 	case "i":
-		return obs.App("AI", obs.Z(a.I))
+		return obs.App("AI", zx(a.I))
 	case "u":
-		return obs.App("AU", obs.N(a.U))
+		return obs.App("AU", nx(a.U))
 	case "f":
-		return obs.App("AF", obs.N(a.U))
+		return obs.App("AF", nx(a.U))
 	case "g":
-		return obs.App("AF32", obs.N(a.U))
+		return obs.App("AF32", nx(a.U))
 	case "d":
-		return obs.App("AD", obs.Z(a.I))
+		return obs.App("AD", zx(a.I))
 	case "t":
 		// time.Unix normalises; report what the Time value holds
 		t := tim(a)
-		return obs.App("AT", obs.Z(t.Unix()), obs.N(uint64(t.Nanosecond())))
+		return obs.App("AT", zx(t.Unix()), nx(uint64(t.Nanosecond())))
 	case "S":
-		return obs.App("ASs", el(func(e Arg) string { return obs.H(e.S) }))
+		return obs.App("ASs", el(func(e Arg) string { return hx(e.S) }))
 	case "I":
-		return obs.App("AIs", el(func(e Arg) string { return obs.Z(e.I) }))
+		return obs.App("AIs", el(func(e Arg) string { return zx(e.I) }))
 	case "U":
-		return obs.App("AUs", el(func(e Arg) string { return obs.N(e.U) }))
+		return obs.App("AUs", el(func(e Arg) string { return nx(e.U) }))
 	case "F":
-		return obs.App("AFs", el(func(e Arg) string { return obs.N(e.U) }))
+		return obs.App("AFs", el(func(e Arg) string { return nx(e.U) }))
 	case "G":
-		return obs.App("AF32s", el(func(e Arg) string { return obs.N(e.U) }))
+		return obs.App("AF32s", el(func(e Arg) string { return nx(e.U) }))
 	case "Q", "R":
 		var ps []string
 		for i := 0; i+1 < len(a.L); i += 2 {
-			second := obs.H(a.L[i+1].S)
+			second := hx(a.L[i+1].S)
 			if a.K == "R" {
-				second = obs.N(a.L[i+1].U)
+				second = nx(a.L[i+1].U)
 			}
-			ps = append(ps, "("+obs.H(a.L[i].S)+", "+second+")")
+			ps = append(ps, "("+hx(a.L[i].S)+", "+second+")")
 		}
 		c := "AQS"
 		if a.K == "R" {
@@ -605,6 +605,26 @@ func execPath(init uint16, root string, steps []Step, term string) (b built) {
 	return
 }
 
+// Gallina printers that coqc parses fast: hex numerals (decimal numerals are converted by a Coq-level function,
+// ten times slower) and byte strings as packed numbers ([unpack 0x01…]) instead of string literals.
+func nx(u uint64) string { return "0x" + strconv.FormatUint(u, 16) }
+
+func zx(i int64) string {
+	if i < 0 {
+		return "(-0x" + strconv.FormatUint(uint64(-(i+1))+1, 16) + ")%Z"
+	}
+	return "0x" + strconv.FormatUint(uint64(i), 16) + "%Z"
+}
+
+func hx(b []byte) string {
+	if len(b) == 0 {
+		return "[]"
+	}
+	return "(unpack 0x01" + fmt.Sprintf("%x", b) + ")"
+}
+
+func hxs(s string) string { return hx([]byte(s)) }
+
 func fnv32(s string) uint64 {
 	h := fnv.New32a()
 	h.Write([]byte(s))
@@ -797,7 +817,7 @@ func decode(raw json.RawMessage) (any, error) {
 
 // ---------------------------------------------------------------- run
 
-func hs(ss []string) string { return obs.ListOf(ss, obs.HS) }
+func hs(ss []string) string { return obs.ListOf(ss, hxs) }
 
 func collectFloats(a Arg, f64s, f32s map[uint64]string) {
 	switch a.K {
@@ -819,7 +839,7 @@ func floatTab(m map[uint64]string) string {
 	sort.Slice(keys, func(i, j int) bool { return keys[i] < keys[j] })
 	items := make([]string, len(keys))
 	for i, k := range keys {
-		items[i] = "(" + obs.N(k) + ", " + obs.HS(m[k]) + ")"
+		items[i] = "(" + nx(k) + ", " + hxs(m[k]) + ")"
 	}
 	return obs.List(items)
 }
@@ -846,10 +866,10 @@ func runPath(c Case) (res obs.Result) {
 	}
 	impl := obs.Panic
 	if !b.panicked {
-		impl = obs.Ok(obs.App("Obs", hs(b.argv), obs.N(uint64(b.cf)), obs.N(uint64(b.ks)), obs.N(fnv32(b.typeName)), obs.Bool(b.hasBuild), obs.Bool(b.hasCache)))
+		impl = obs.Ok(obs.App("Obs", hs(b.argv), nx(uint64(b.cf)), nx(uint64(b.ks)), nx(fnv32(b.typeName)), obs.Bool(b.hasBuild), obs.Bool(b.hasCache)))
 	}
 	term := map[string]string{"Build": "TBuild", "Cache": "TCache"}[c.Term]
-	res.Coq = obs.App("CPath", obs.N(uint64(c.Init)), packed(c.Root), obs.List(steps), term, floatTab(f64s), floatTab(f32s), impl)
+	res.Coq = obs.App("CPath", nx(uint64(c.Init)), packed(c.Root), obs.List(steps), term, floatTab(f64s), floatTab(f32s), impl)
 	var sig strings.Builder
 	sig.WriteString(c.Root)
 	for _, st := range c.Steps {
@@ -1081,7 +1101,7 @@ func runArb(c Case) (res obs.Result) {
 	for i, st := range c.Steps {
 		var l []string
 		for _, e := range st.A[0].L {
-			l = append(l, obs.H(e.S))
+			l = append(l, hx(e.S))
 		}
 		k := "AArgs"
 		if st.M == "Keys" {
@@ -1091,10 +1111,10 @@ func runArb(c Case) (res obs.Result) {
 	}
 	impl := obs.Panic
 	if !panicked {
-		impl = obs.Ok(obs.App("Cmd", hs(out.Commands()), obs.N(uint64(rueidis.VerifBldCompletedCF(out))), obs.N(uint64(out.Slot()))))
+		impl = obs.Ok(obs.App("Cmd", hs(out.Commands()), nx(uint64(rueidis.VerifBldCompletedCF(out))), nx(uint64(out.Slot()))))
 	}
 	term := map[string]string{"Build": "ABuild", "Blocking": "ABlocking", "ReadOnly": "AReadOnly", "MultiGet": "AMultiGet"}[c.Term]
-	res.Coq = obs.App("CArb", obs.N(uint64(c.Init)), obs.ListOf(c.Toks, obs.H), obs.List(steps), term, impl)
+	res.Coq = obs.App("CArb", nx(uint64(c.Init)), obs.ListOf(c.Toks, hx), obs.List(steps), term, impl)
 	res.Sig = fmt.Sprint("arb:", toks, c.Term, len(c.Steps), panicked)
 	res.Nontrivial = len(toks) > 0
 	res.Obs = map[string]any{"panic": msg}
@@ -1120,7 +1140,7 @@ func runArb(c Case) (res obs.Result) {
 func runFlags(c Case) (res obs.Result) {
 	res.Kind = "flags"
 	cmd := rueidis.VerifBldWithCF([]string{"X"}, c.CF)
-	res.Coq = obs.App("CFlags", obs.N(uint64(c.CF)), obs.Bool(cmd.IsReadOnly()), obs.Bool(cmd.IsBlock()), obs.Bool(cmd.NoReply()),
+	res.Coq = obs.App("CFlags", nx(uint64(c.CF)), obs.Bool(cmd.IsReadOnly()), obs.Bool(cmd.IsBlock()), obs.Bool(cmd.NoReply()),
 		obs.Bool(cmd.IsUnsub()), obs.Bool(cmd.IsOptIn()), obs.Bool(cmd.IsPipe()), obs.Bool(cmd.IsRetryable()))
 	res.Sig = fmt.Sprint("flags:", c.CF)
 	res.Nontrivial = c.CF != 0
@@ -1138,7 +1158,7 @@ func runPredef(c Case) (res obs.Result) {
 		res.Kind = "predef-stale"
 		return
 	}
-	res.Coq = obs.App("CPredef", packed(c.Name), hs(p.Commands()), obs.N(uint64(rueidis.VerifBldCompletedCF(p))))
+	res.Coq = obs.App("CPredef", packed(c.Name), hs(p.Commands()), nx(uint64(rueidis.VerifBldCompletedCF(p))))
 	res.Sig = "predef:" + c.Name
 	res.Nontrivial = true
 	if *prop == "C32" {
@@ -1188,6 +1208,25 @@ func main() {
 		if (a == "-focus" || a == "--focus") && i+1 < len(os.Args) {
 			for _, f := range strings.Split(os.Args[i+1], ",") {
 				if f = strings.TrimSpace(f); f != "" {
+					if strings.HasPrefix(f, "@") { // a command: the root constructor with these tokens
+						for _, rn := range rootsM {
+							v := reflect.ValueOf(rueidis.VerifBldNewBuilder(rueidis.VerifBldNoSlot)).MethodByName(rn).Call(nil)[0]
+							if s, _, _, ok := rueidis.VerifBldPeek(v.Interface()); ok && strings.Join(s, " ") == f[1:] {
+								focuses = append(focuses, [2]string{rn, ""})
+							}
+						}
+						continue
+					}
+					if strings.HasPrefix(f, "#") { // #<FNV-1a of the type name>.<Method>
+						parts := strings.SplitN(f[1:], ".", 2)
+						h, _ := strconv.ParseUint(parts[0], 10, 64)
+						for name := range byName {
+							if fnv32(name) == h && len(parts) == 2 {
+								focuses = append(focuses, [2]string{name, parts[1]})
+							}
+						}
+						continue
+					}
 					parts := strings.SplitN(f, ".", 2)
 					if len(parts) == 1 {
 						focuses = append(focuses, [2]string{parts[0], ""})
